@@ -380,10 +380,6 @@ Proof.
 Qed.
 
 (* ================================================================== refutations by witness *)
-Lemma powershell_refuted :
-  exists v, read_powershell_sp (powershell_quote v) <> Some (v, false).
-Proof. exists (B [97;32;39;98]). vm_compute. discriminate. Qed.
-
 Lemma xonsh_refuted_quote :
   exists v, read_xonsh_sp (xonsh_quote v) = Reads None.
 Proof. exists (B [36;32;63;62;92]). vm_compute. reflexivity. Qed.
